@@ -53,6 +53,9 @@ def r1_deserialise(ctx):
                                                          f"{G}.nodes.Node.is_sink", f"{G}.nodes.Node.is_source"})
     paths = ip.explore(fi, args={"data": data, "node_factory": FuncRef(repo.func(f"{EXP}.default_node_factory"))})
     ctx.evals(len(paths))
+    if len(paths) == 1 and paths[0].exit[0] == "raise":
+        ctx.violation("C12.R1", fi.qual, loc(fi), "model data deserialises", f"a well-formed serialised graph cannot be read back: {vkey(paths[0].exit[1])[:100]}")
+        return
     if len(paths) != 1 or paths[0].exit[0] != "return":
         ctx.undecided("C12.R1", loc(fi), f"deserialise is not deterministic on the model data: {[(p.exit[0], vkey(p.exit[1])[:80]) for p in paths][:2]} {paths[0].cond_text()[:200]}")
         return
